@@ -520,7 +520,9 @@ func (child *partitionConsumer) parseMessages(msgSet *MessageSet) ([]*ConsumerMe
 			if msg.Msg.Version >= 1 {
 				baseOffset := msgBlock.Offset - msgBlock.Messages()[len(msgBlock.Messages())-1].Offset
 				offset += baseOffset
-				if msg.Msg.LogAppendTime {
+				// for a compressed set the broker stamps the wrapper only (KIP-32): its timestamp type
+				// applies to every inner message
+				if msg.Msg.LogAppendTime || msgBlock.Msg.LogAppendTime {
 					timestamp = msgBlock.Msg.Timestamp
 				}
 			}
